@@ -17,8 +17,9 @@ pixels are *equal*.
 `sampleOf` is the tree as it is since `fix:` 3fdd300 (torch datasets honour the config's
 `max_height/max_width`); `frameworks_agree_scale1` / `frameworks_agree_any_scale` are the full
 statements for it.  The tree before the fix is `sampleOfAsWas`; `cfg_max_override_counterexample`
-(F-C18a) is kept about it as the regression record.  The one hypothesis that still names a defect is
-`hsingle` (F-C18b): it is vacuous on a tree with `singleOne = true`.
+(F-C18a) is kept about it as the regression record.  `SingleInstanceDataset` builds one-instance samples since b2232cf; the tree before it is
+`sampleOfBeforeB2232cf` with `single_maxinst_counterexample` (F-C18b) as its regression record.
+No hypothesis of the two statements names a defect any more.
 -/
 
 set_option linter.unusedSectionVars false
@@ -37,17 +38,6 @@ def PixelsAgree (m n s : Sample R) : Prop :=
 def CoordsEq (a b : Sample R) : Prop :=
   a.instances = b.instances ∧ a.centroids = b.centroids ∧ a.bbox = b.bbox
 
-/-- single-instance labels do not trip F-C18b: the repair is in, or no frame has more than one
-instance (so `get_max_instances = 1`) -/
-def SingleOk (cfg : Cfg R) : Prop :=
-  cfg.mt = .single → cfg.singleOne = true ∨ cfg.maxInstances = 1
-
-theorem dsMaxInst_single (cfg : Cfg R) (h : cfg.mt = .single) (hs : SingleOk cfg) : dsMaxInst cfg = 1 := by
-  rcases hs h with h1 | h1 <;> simp [dsMaxInst, h, h1]
-
-theorem dsMaxInst_other (cfg : Cfg R) (h : cfg.mt ≠ .single) : dsMaxInst cfg = cfg.maxInstances := by
-  simp [dsMaxInst, h]
-
 theorem shape_erase (N : Num R) (raw : Nat × Nat × Nat) (i : Img R) :
     shape N raw i.erase = shape N raw i := Pipelines.shape_erase N raw i
 
@@ -62,19 +52,17 @@ example : centroidOf (R := Rat) (some 0) (scaleInst (1/2) [none, some (4, 6), so
 /-! ## single-instance and bottom-up: any scale -/
 
 theorem plain_agree (N : Num R) (cfg : Cfg R) (fr : Frame R) (k : Nat)
-    (hmt : cfg.mt = .single ∨ cfg.mt = .bottomup) (hsingle : SingleOk cfg) :
+    (hmt : cfg.mt = .single ∨ cfg.mt = .bottomup) :
     PixelsAgree (sampleOf N .mem cfg fr k) (sampleOf N .np cfg fr k) (sampleOf N .stream cfg fr k) ∧
     CoordsEq (sampleOf N .np cfg fr k) (sampleOf N .mem cfg fr k) ∧
     CoordsEq (sampleOf N .stream cfg fr k) (sampleOf N .mem cfg fr k) ∧
     (sampleOf N .np cfg fr k).numInstances = (sampleOf N .mem cfg fr k).numInstances ∧
     (sampleOf N .stream cfg fr k).numInstances = (sampleOf N .mem cfg fr k).numInstances := by
   rcases hmt with h | h
-  · have h1 := dsMaxInst_single cfg h hsingle
-    simp [sampleOf, sampleOfH, h, torchPlain, streamPlain, PixelsAgree, CoordsEq, Img.erase, Img.quants,
-      dsMaxH, dsMaxW, h1, processLf_num, q8If]
-  · have h1 := dsMaxInst_other cfg (by rw [h]; decide)
-    simp [sampleOf, sampleOfH, h, torchPlain, streamPlain, PixelsAgree, CoordsEq, Img.erase, Img.quants,
-      dsMaxH, dsMaxW, h1, processLf_num, q8If]
+  · simp [sampleOf, sampleOfH, h, torchPlain, streamPlain, PixelsAgree, CoordsEq, Img.erase, Img.quants,
+      dsMaxH, dsMaxW, dsMaxInst, Tree.current, processLf_num, q8If]
+  · simp [sampleOf, sampleOfH, h, torchPlain, streamPlain, PixelsAgree, CoordsEq, Img.erase, Img.quants,
+      dsMaxH, dsMaxW, dsMaxInst, Tree.current, processLf_num, q8If]
 
 /-! ## centroid: any positive scale -/
 
@@ -98,14 +86,14 @@ theorem centroid_agree (N : Num R) (cfg : Cfg R) (fr : Frame R) (k : Nat)
     · rfl
     · exact (map_centroidOf_scale cfg.scale hs cfg.anchor _).symm
   refine ⟨?_, ?_, ?_, ?_, ?_, ?_, ?_⟩
-  · simp [sampleOf, sampleOfH, dsMaxH, dsMaxW, hmt, torchCentroid, streamCentroid, PixelsAgree, Img.erase, Img.quants, q8If]
-  · simp [sampleOf, sampleOfH, dsMaxH, dsMaxW, hmt, torchCentroid, CoordsEq]
-  · simpa [sampleOf, sampleOfH, dsMaxH, dsMaxW, hmt, torchCentroid, streamCentroid] using key
-  · simp [sampleOf, sampleOfH, dsMaxH, dsMaxW, hmt, torchCentroid, streamCentroid]
+  · simp [sampleOf, sampleOfH, dsMaxH, dsMaxW, Tree.current, hmt, torchCentroid, streamCentroid, PixelsAgree, Img.erase, Img.quants, q8If]
+  · simp [sampleOf, sampleOfH, dsMaxH, dsMaxW, Tree.current, hmt, torchCentroid, CoordsEq]
+  · simpa [sampleOf, sampleOfH, dsMaxH, dsMaxW, Tree.current, hmt, torchCentroid, streamCentroid] using key
+  · simp [sampleOf, sampleOfH, dsMaxH, dsMaxW, Tree.current, hmt, torchCentroid, streamCentroid]
   · intro h1
-    simp [sampleOf, sampleOfH, dsMaxH, dsMaxW, hmt, torchCentroid, streamCentroid, applyResizerPts, h1]
-  · simp [sampleOf, sampleOfH, dsMaxH, dsMaxW, hmt, torchCentroid]
-  · simp [sampleOf, sampleOfH, dsMaxH, dsMaxW, hmt, torchCentroid, streamCentroid, processLf_num]
+    simp [sampleOf, sampleOfH, dsMaxH, dsMaxW, Tree.current, hmt, torchCentroid, streamCentroid, applyResizerPts, h1]
+  · simp [sampleOf, sampleOfH, dsMaxH, dsMaxW, Tree.current, hmt, torchCentroid]
+  · simp [sampleOf, sampleOfH, dsMaxH, dsMaxW, Tree.current, hmt, torchCentroid, streamCentroid, processLf_num]
 
 /-! ## centred instance: scale 1 -/
 
@@ -124,26 +112,26 @@ theorem centered_agree_scale1 (N : Num R) (cfg : Cfg R) (fr : Frame R) (k : Nat)
   have hget' : (nonEmpty fr.insts)[k]? = some ((nonEmpty fr.insts)[k]) := List.getElem?_eq_getElem hk
   have hN' : ∀ n : Nat, N.trunc (N.cast n) = n := fun n => by simpa using hN n
   refine ⟨?_, ?_, ?_, ?_, ?_, ?_⟩
-  · simp [sampleOf, sampleOfH, dsMaxH, dsMaxW, hmt, torchCentered, streamCentered, recrop, generateCrops, PixelsAgree, Img.erase,
+  · simp [sampleOf, sampleOfH, dsMaxH, dsMaxW, Tree.current, hmt, torchCentered, streamCentered, recrop, generateCrops, PixelsAgree, Img.erase,
       Img.quants, hs, hN', applyResizer, applyResizerPts, hget, hget', q8If]
-  · simp [sampleOf, sampleOfH, dsMaxH, dsMaxW, hmt, torchCentered, recrop, generateCrops, CoordsEq]
-  · simp [sampleOf, sampleOfH, dsMaxH, dsMaxW, hmt, torchCentered, streamCentered, recrop, generateCrops, CoordsEq, hs, hN',
+  · simp [sampleOf, sampleOfH, dsMaxH, dsMaxW, Tree.current, hmt, torchCentered, recrop, generateCrops, CoordsEq]
+  · simp [sampleOf, sampleOfH, dsMaxH, dsMaxW, Tree.current, hmt, torchCentered, streamCentered, recrop, generateCrops, CoordsEq, hs, hN',
       applyResizer, applyResizerPts, hget, hget']
-  · simp [sampleOf, sampleOfH, dsMaxH, dsMaxW, hmt, torchCentered, recrop]
+  · simp [sampleOf, sampleOfH, dsMaxH, dsMaxW, Tree.current, hmt, torchCentered, recrop]
   · intro hne
-    simp [sampleOf, sampleOfH, dsMaxH, dsMaxW, hmt, torchCentered, streamCentered, recrop, processLf_num, hne]
-  · simp [sampleOf, sampleOfH, dsMaxH, dsMaxW, hmt, torchCentered, streamCentered, recrop, generateCrops, hs, hN', applyResizer,
+    simp [sampleOf, sampleOfH, dsMaxH, dsMaxW, Tree.current, hmt, torchCentered, streamCentered, recrop, processLf_num, hne]
+  · simp [sampleOf, sampleOfH, dsMaxH, dsMaxW, Tree.current, hmt, torchCentered, streamCentered, recrop, generateCrops, hs, hN', applyResizer,
       applyResizerPts, hget, hget', q8If]
 
 /-! ## the two statements of the property -/
 
 /-- **All four model types at scale 1** — the full statement, for the tree as it is.  No hypothesis
-relates `max_hw` to the config's `max_height/max_width` any more (3fdd300).  `hsingle`: F-C18b
-(vacuous once `singleOne = true`); `hk`: `k` addresses an existing non-empty instance;
+relates `max_hw` to the config's `max_height/max_width` (3fdd300) or restricts the labels of a
+single-instance model (b2232cf) any more.  `hk`: `k` addresses an existing non-empty instance;
 `hN`: `int(n * 1.0) = n`.  Beyond the statement (metadata): `num_instances` of the centred-instance
 streaming sample agrees when the frame has no empty instance. -/
 theorem frameworks_agree_scale1 (N : Num R) (cfg : Cfg R) (fr : Frame R) (k : Nat)
-    (hs : cfg.scale = 1) (hsingle : SingleOk cfg)
+    (hs : cfg.scale = 1)
     (hN : ∀ n : Nat, N.trunc (N.cast n * 1) = n)
     (hk : cfg.mt = .centered → k < (nonEmpty fr.insts).length) :
     PixelsAgree (sampleOf N .mem cfg fr k) (sampleOf N .np cfg fr k) (sampleOf N .stream cfg fr k) ∧
@@ -155,10 +143,10 @@ theorem frameworks_agree_scale1 (N : Num R) (cfg : Cfg R) (fr : Frame R) (k : Na
   have hpos : (0 : R) < cfg.scale := by rw [hs]; exact one_pos
   cases hmt : cfg.mt with
   | single =>
-    obtain ⟨a, b, c, d, e⟩ := plain_agree N cfg fr k (Or.inl hmt) hsingle
+    obtain ⟨a, b, c, d, e⟩ := plain_agree N cfg fr k (Or.inl hmt)
     exact ⟨a, b, c, d, fun _ => e⟩
   | bottomup =>
-    obtain ⟨a, b, c, d, e⟩ := plain_agree N cfg fr k (Or.inr hmt) hsingle
+    obtain ⟨a, b, c, d, e⟩ := plain_agree N cfg fr k (Or.inr hmt)
     exact ⟨a, b, c, d, fun _ => e⟩
   | centroid =>
     obtain ⟨a, b, c, d, e, f, g⟩ := centroid_agree N cfg fr k hmt hpos
@@ -171,7 +159,7 @@ theorem frameworks_agree_scale1 (N : Num R) (cfg : Cfg R) (fr : Frame R) (k : Na
 terms agree up to one round trip; the points the targets are drawn from (`instances`, resp.
 `centroids` for the centroid model) are the same; `num_instances` is the same. -/
 theorem frameworks_agree_any_scale (N : Num R) (cfg : Cfg R) (fr : Frame R) (k : Nat)
-    (hmt : cfg.mt ≠ .centered) (hs : 0 < cfg.scale) (hsingle : SingleOk cfg) :
+    (hmt : cfg.mt ≠ .centered) (hs : 0 < cfg.scale) :
     PixelsAgree (sampleOf N .mem cfg fr k) (sampleOf N .np cfg fr k) (sampleOf N .stream cfg fr k) ∧
     CoordsEq (sampleOf N .np cfg fr k) (sampleOf N .mem cfg fr k) ∧
     (sampleOf N .stream cfg fr k).centroids = (sampleOf N .mem cfg fr k).centroids ∧
@@ -180,10 +168,10 @@ theorem frameworks_agree_any_scale (N : Num R) (cfg : Cfg R) (fr : Frame R) (k :
     (sampleOf N .stream cfg fr k).numInstances = (sampleOf N .mem cfg fr k).numInstances := by
   cases h : cfg.mt with
   | single =>
-    obtain ⟨a, b, c, d, e⟩ := plain_agree N cfg fr k (Or.inl h) hsingle
+    obtain ⟨a, b, c, d, e⟩ := plain_agree N cfg fr k (Or.inl h)
     exact ⟨a, b, c.2.1, fun _ => c.1, d, e⟩
   | bottomup =>
-    obtain ⟨a, b, c, d, e⟩ := plain_agree N cfg fr k (Or.inr h) hsingle
+    obtain ⟨a, b, c, d, e⟩ := plain_agree N cfg fr k (Or.inr h)
     exact ⟨a, b, c.2.1, fun _ => c.1, d, e⟩
   | centroid =>
     obtain ⟨a, b, c, _, _, f, g⟩ := centroid_agree N cfg fr k h hs
@@ -197,8 +185,8 @@ def cfg1 : Cfg Rat :=
     scale := 1/2, maxStride := 16, cropH := 32, cropW := 32, anchor := some 0, maxInstances := 2,
     aliasing := false }
 
-example : cfg1.mt ≠ .centered ∧ 0 < cfg1.scale ∧ SingleOk cfg1 := by
-  refine ⟨by decide, by norm_num [cfg1], fun h => absurd h (by decide)⟩
+example : cfg1.mt ≠ .centered ∧ 0 < cfg1.scale := by
+  refine ⟨by decide, by norm_num [cfg1]⟩
 
 example : ∀ n : Nat, numRat.trunc (numRat.cast n * 1) = n := by
   intro n
@@ -215,11 +203,11 @@ theorem np_stream_pixels_equal {P : Type} (I : Interp R P)
     I.eval (sampleOf N .np cfg fr k).img = I.eval (sampleOf N .stream cfg fr k).img := by
   cases hmt : cfg.mt with
   | single =>
-    simp [sampleOf, sampleOfH, dsMaxH, dsMaxW, hmt, torchPlain, streamPlain, q8If, Interp.eval, hcomm]
+    simp [sampleOf, sampleOfH, dsMaxH, dsMaxW, Tree.current, hmt, torchPlain, streamPlain, q8If, Interp.eval, hcomm]
   | bottomup =>
-    simp [sampleOf, sampleOfH, dsMaxH, dsMaxW, hmt, torchPlain, streamPlain, q8If, Interp.eval, hcomm]
+    simp [sampleOf, sampleOfH, dsMaxH, dsMaxW, Tree.current, hmt, torchPlain, streamPlain, q8If, Interp.eval, hcomm]
   | centroid =>
-    simp [sampleOf, sampleOfH, dsMaxH, dsMaxW, hmt, torchCentroid, streamCentroid, q8If, Interp.eval, hcomm]
+    simp [sampleOf, sampleOfH, dsMaxH, dsMaxW, Tree.current, hmt, torchCentroid, streamCentroid, q8If, Interp.eval, hcomm]
   | centered =>
     obtain ⟨h1, h2, h3⟩ := hc hmt
     rw [(centered_agree_scale1 N cfg fr k hmt h1 h2 h3).2.2.2.2.2]
@@ -264,12 +252,12 @@ theorem erase_eq_of_pixelsAgree {m n s : Sample R} (h : PixelsAgree m n s) :
 
 /-- at scale 1 the three frameworks generate the same targets, for every model type -/
 theorem targets_agree_scale1 (N : Num R) (hd : Heads R) (raw : Nat × Nat × Nat) (cfg : Cfg R) (fr : Frame R)
-    (k : Nat) (hs : cfg.scale = 1) (hsingle : SingleOk cfg)
+    (k : Nat) (hs : cfg.scale = 1)
     (hN : ∀ n : Nat, N.trunc (N.cast n * 1) = n)
     (hk : cfg.mt = .centered → k < (nonEmpty fr.insts).length) :
     targetsOf N raw cfg.mt hd (sampleOf N .np cfg fr k) = targetsOf N raw cfg.mt hd (sampleOf N .mem cfg fr k) ∧
     targetsOf N raw cfg.mt hd (sampleOf N .stream cfg fr k) = targetsOf N raw cfg.mt hd (sampleOf N .mem cfg fr k) := by
-  obtain ⟨px, cn, cs, nn, ns⟩ := frameworks_agree_scale1 N cfg fr k hs hsingle hN hk
+  obtain ⟨px, cn, cs, nn, ns⟩ := frameworks_agree_scale1 N cfg fr k hs hN hk
   obtain ⟨e1, e2⟩ := erase_eq_of_pixelsAgree px
   refine ⟨targets_from_same_points N raw cfg.mt hd _ _ e1 (fun _ => cn.1) (fun _ => cn.2.1) (fun _ => nn),
           targets_from_same_points N raw cfg.mt hd _ _ e2 (fun _ => cs.1) (fun _ => cs.2.1) ?_⟩
@@ -280,10 +268,10 @@ theorem targets_agree_scale1 (N : Num R) (hd : Heads R) (raw : Nat × Nat × Nat
 
 /-- single-instance, centroid, bottom-up: the same targets at any positive scale -/
 theorem targets_agree_any_scale (N : Num R) (hd : Heads R) (raw : Nat × Nat × Nat) (cfg : Cfg R) (fr : Frame R)
-    (k : Nat) (hmt : cfg.mt ≠ .centered) (hs : 0 < cfg.scale) (hsingle : SingleOk cfg) :
+    (k : Nat) (hmt : cfg.mt ≠ .centered) (hs : 0 < cfg.scale) :
     targetsOf N raw cfg.mt hd (sampleOf N .np cfg fr k) = targetsOf N raw cfg.mt hd (sampleOf N .mem cfg fr k) ∧
     targetsOf N raw cfg.mt hd (sampleOf N .stream cfg fr k) = targetsOf N raw cfg.mt hd (sampleOf N .mem cfg fr k) := by
-  obtain ⟨px, cn, sc, si, nn, ns⟩ := frameworks_agree_any_scale N cfg fr k hmt hs hsingle
+  obtain ⟨px, cn, sc, si, nn, ns⟩ := frameworks_agree_any_scale N cfg fr k hmt hs
   obtain ⟨e1, e2⟩ := erase_eq_of_pixelsAgree px
   exact ⟨targets_from_same_points N raw cfg.mt hd _ _ e1 (fun _ => cn.1) (fun _ => cn.2.1) (fun _ => nn),
          targets_from_same_points N raw cfg.mt hd _ _ e2 si (fun _ => sc) (fun _ => ns)⟩
@@ -315,20 +303,21 @@ theorem cfg_max_override_repaired :
     (sampleOf numRat .stream cfg fr0 0).instances = (sampleOf numRat .mem cfg fr0 0).instances := by
   decide +kernel
 
-/-- F-C18b: `SingleInstanceDataset` pads `instances` to `get_max_instances(labels)` rows,
-`single_instance_data_chunks` hard-codes `max_instances = 1`.  On single-animal labels in which some
-frame carries a second (e.g. empty) instance the keypoint tensors — and with them the number of
-confidence-map channels — differ.  `hsingle` cannot be dropped on the tree as it is. -/
+/-- F-C18b, regression record: on the tree **before b2232cf** `SingleInstanceDataset` pads
+`instances` to `get_max_instances(labels)` rows while `single_instance_data_chunks` hard-codes
+`max_instances = 1`.  On single-animal labels in which some frame carries a second (e.g. empty)
+instance the keypoint tensors — and with them the number of confidence-map channels — differ. -/
 theorem single_maxinst_counterexample :
     let cfg := { cfg0 with maxInstances := 2 }
-    (sampleOf numRat .stream cfg fr0 0).instances ≠ (sampleOf numRat .mem cfg fr0 0).instances ∧
-    targetsOf numRat (1, 96, 128) .single ⟨3/2, 2, 4, 4, []⟩ (sampleOf numRat .stream cfg fr0 0)
-      ≠ targetsOf numRat (1, 96, 128) .single ⟨3/2, 2, 4, 4, []⟩ (sampleOf numRat .mem cfg fr0 0) := by
+    (sampleOfBeforeB2232cf numRat .stream cfg fr0 0).instances
+      ≠ (sampleOfBeforeB2232cf numRat .mem cfg fr0 0).instances ∧
+    targetsOf numRat (1, 96, 128) .single ⟨3/2, 2, 4, 4, []⟩ (sampleOfBeforeB2232cf numRat .stream cfg fr0 0)
+      ≠ targetsOf numRat (1, 96, 128) .single ⟨3/2, 2, 4, 4, []⟩ (sampleOfBeforeB2232cf numRat .mem cfg fr0 0) := by
   decide +kernel
 
-/-- with the repair (`self.max_instances = 1` in `SingleInstanceDataset`) they agree -/
+/-- the same labels on the tree as it is: they agree -/
 theorem single_maxinst_repaired :
-    let cfg := { cfg0 with maxInstances := 2, singleOne := true }
+    let cfg := { cfg0 with maxInstances := 2 }
     (sampleOf numRat .stream cfg fr0 0).instances = (sampleOf numRat .mem cfg fr0 0).instances := by
   decide +kernel
 
